@@ -290,22 +290,36 @@ static void addCell(const std::string & name, int dq, int dt) {
 	units().push_back(u);
 }
 
+// The cells whose getEvent policy returns a REFERENCE can be built as a translation unit of their own (-DVERIF_ONLY_REFCELLS,
+// the other cells with -DVERIF_NO_REFCELLS): a tree on which that policy shape no longer compiles then costs only that part
+// of the check, not every cell of the matrix.
+#if defined(VERIF_ONLY_REFCELLS)
+#define PLAINCELL(...)
+#define REFCELL(...) __VA_ARGS__
+#elif defined(VERIF_NO_REFCELLS)
+#define PLAINCELL(...) __VA_ARGS__
+#define REFCELL(...)
+#else
+#define PLAINCELL(...) __VA_ARGS__
+#define REFCELL(...) __VA_ARGS__
+#endif
+
 template <typename K, bool Hashed>
 static void addQueueFamily(bool full) {
 	using namespace eventpp;
 	std::string kn = std::string("C05/keys/") + KeyOps<K>::name();
 	const int dq = 3, dt = 5;
-	addCell<Cell<K, K, Tracked, Pol<ArgumentPassingAutoDetect, false, Hashed>, false, true> >(kn + "/key-by-value/payload-by-value/auto/default-map", dq, dt);
-	addCell<Cell<K, const K &, const Tracked &, Pol<ArgumentPassingIncludeEvent, true, Hashed>, false, true> >(kn + "/key-const-ref/payload-const-ref/include/user-map", dq, dt);
-	addCell<Cell<K, K, Tracked, PolGetEvent<K, false, Hashed>, true, true> >(kn + "/getEvent-policy/payload-by-value/default-map", dq, dt);
-	addCell<Cell<K, K, Tracked, PolGetEventRef<K, false, Hashed>, false, true> >(kn + "/getEvent-returning-reference/key-by-value/payload-by-value/default-map", dq, dt);
-	addCell<Cell<K, K, const Tracked &, PolGetEventRotExcl<K, false, Hashed>, false, true> >(kn + "/getEvent-mapping/exclude/key-by-value/payload-const-ref/default-map", dq, dt);
+	PLAINCELL(addCell<Cell<K, K, Tracked, Pol<ArgumentPassingAutoDetect, false, Hashed>, false, true> >(kn + "/key-by-value/payload-by-value/auto/default-map", dq, dt);)
+	PLAINCELL(addCell<Cell<K, const K &, const Tracked &, Pol<ArgumentPassingIncludeEvent, true, Hashed>, false, true> >(kn + "/key-const-ref/payload-const-ref/include/user-map", dq, dt);)
+	PLAINCELL(addCell<Cell<K, K, Tracked, PolGetEvent<K, false, Hashed>, true, true> >(kn + "/getEvent-policy/payload-by-value/default-map", dq, dt);)
+	REFCELL(addCell<Cell<K, K, Tracked, PolGetEventRef<K, false, Hashed>, false, true> >(kn + "/getEvent-returning-reference/key-by-value/payload-by-value/default-map", dq, dt);)
+	PLAINCELL(addCell<Cell<K, K, const Tracked &, PolGetEventRotExcl<K, false, Hashed>, false, true> >(kn + "/getEvent-mapping/exclude/key-by-value/payload-const-ref/default-map", dq, dt);)
 	if(!full) return;
-	addCell<Cell<K, const K &, Tracked, PolGetEventRot<K, ArgumentPassingAutoDetect, true, Hashed>, false, true> >(kn + "/getEvent-mapping/auto/key-const-ref/payload-by-value/user-map", dq, dt);
-	addCell<Cell<K, K, Tracked, PolGetEventRotRef<K, ArgumentPassingAutoDetect, false, Hashed>, false, true> >(kn + "/getEvent-mapping-returning-reference/auto/key-by-value/payload-by-value/default-map", dq, dt);
-	addCell<Cell<K, K, const Tracked &, Pol<ArgumentPassingExcludeEvent, false, Hashed>, false, true> >(kn + "/key-by-value/payload-const-ref/exclude/default-map", dq, dt);
-	addCell<Cell<K, const K &, Tracked, Pol<ArgumentPassingAutoDetect, true, Hashed>, false, true> >(kn + "/key-const-ref/payload-by-value/auto/user-map", dq, dt);
-	addCell<Cell<K, K, const Tracked &, PolGetEvent<K, true, Hashed>, true, true> >(kn + "/getEvent-policy/payload-const-ref/user-map", dq, dt);
+	PLAINCELL(addCell<Cell<K, const K &, Tracked, PolGetEventRot<K, ArgumentPassingAutoDetect, true, Hashed>, false, true> >(kn + "/getEvent-mapping/auto/key-const-ref/payload-by-value/user-map", dq, dt);)
+	REFCELL(addCell<Cell<K, K, Tracked, PolGetEventRotRef<K, ArgumentPassingAutoDetect, false, Hashed>, false, true> >(kn + "/getEvent-mapping-returning-reference/auto/key-by-value/payload-by-value/default-map", dq, dt);)
+	PLAINCELL(addCell<Cell<K, K, const Tracked &, Pol<ArgumentPassingExcludeEvent, false, Hashed>, false, true> >(kn + "/key-by-value/payload-const-ref/exclude/default-map", dq, dt);)
+	PLAINCELL(addCell<Cell<K, const K &, Tracked, Pol<ArgumentPassingAutoDetect, true, Hashed>, false, true> >(kn + "/key-const-ref/payload-by-value/auto/user-map", dq, dt);)
+	PLAINCELL(addCell<Cell<K, K, const Tracked &, PolGetEvent<K, true, Hashed>, true, true> >(kn + "/getEvent-policy/payload-const-ref/user-map", dq, dt);)
 }
 
 template <typename K, bool Hashed>
@@ -314,26 +328,26 @@ static void addKeyFamily(bool full) {
 	std::string kn = std::string("C04/") + KeyOps<K>::name();
 	const int dq = 3, dt = 5;
 	// key by value
-	addCell<Cell<K, K, Tracked, Pol<ArgumentPassingAutoDetect, false, Hashed>, false> >(kn + "/key-by-value/payload-by-value/auto/default-map", dq, dt);
-	addCell<Cell<K, K, const Tracked &, Pol<ArgumentPassingIncludeEvent, false, Hashed>, false> >(kn + "/key-by-value/payload-const-ref/include/default-map", dq, dt);
-	addCell<Cell<K, const K &, Tracked, Pol<ArgumentPassingExcludeEvent, true, Hashed>, false> >(kn + "/key-const-ref/payload-by-value/exclude/user-map", dq, dt);
-	addCell<Cell<K, K, Tracked, PolGetEvent<K, false, Hashed>, true> >(kn + "/getEvent-policy/payload-by-value/default-map", dq, dt);
-	addCell<Cell<K, K, Tracked, PolGetEventRef<K, false, Hashed>, false> >(kn + "/getEvent-returning-reference/key-by-value/payload-by-value/default-map", dq, dt);
-	addCell<Cell<K, K, const Tracked &, PolGetEventRotExcl<K, false, Hashed>, false> >(kn + "/getEvent-mapping/exclude/key-by-value/payload-const-ref/default-map", dq, dt);
-	addCell<Cell<K, const K &, Tracked, PolGetEventRotRef<K, ArgumentPassingAutoDetect, true, Hashed>, false> >(kn + "/getEvent-mapping-returning-reference/auto/key-const-ref/payload-by-value/user-map", dq, dt);
+	PLAINCELL(addCell<Cell<K, K, Tracked, Pol<ArgumentPassingAutoDetect, false, Hashed>, false> >(kn + "/key-by-value/payload-by-value/auto/default-map", dq, dt);)
+	PLAINCELL(addCell<Cell<K, K, const Tracked &, Pol<ArgumentPassingIncludeEvent, false, Hashed>, false> >(kn + "/key-by-value/payload-const-ref/include/default-map", dq, dt);)
+	PLAINCELL(addCell<Cell<K, const K &, Tracked, Pol<ArgumentPassingExcludeEvent, true, Hashed>, false> >(kn + "/key-const-ref/payload-by-value/exclude/user-map", dq, dt);)
+	PLAINCELL(addCell<Cell<K, K, Tracked, PolGetEvent<K, false, Hashed>, true> >(kn + "/getEvent-policy/payload-by-value/default-map", dq, dt);)
+	REFCELL(addCell<Cell<K, K, Tracked, PolGetEventRef<K, false, Hashed>, false> >(kn + "/getEvent-returning-reference/key-by-value/payload-by-value/default-map", dq, dt);)
+	PLAINCELL(addCell<Cell<K, K, const Tracked &, PolGetEventRotExcl<K, false, Hashed>, false> >(kn + "/getEvent-mapping/exclude/key-by-value/payload-const-ref/default-map", dq, dt);)
+	REFCELL(addCell<Cell<K, const K &, Tracked, PolGetEventRotRef<K, ArgumentPassingAutoDetect, true, Hashed>, false> >(kn + "/getEvent-mapping-returning-reference/auto/key-const-ref/payload-by-value/user-map", dq, dt);)
 	if(!full) return;
-	addCell<Cell<K, const K &, Tracked, PolGetEventRot<K, ArgumentPassingAutoDetect, true, Hashed>, false> >(kn + "/getEvent-mapping/auto/key-const-ref/payload-by-value/user-map", dq, dt);
-	addCell<Cell<K, K, Tracked &, PolGetEventRot<K, ArgumentPassingIncludeEvent, false, Hashed>, false> >(kn + "/getEvent-mapping/include/key-by-value/payload-mutable-ref/default-map", dq, dt);
-	addCell<Cell<K, K, const Tracked &, PolGetEventRotRef<K, ArgumentPassingExcludeEvent, false, Hashed>, false> >(kn + "/getEvent-mapping-returning-reference/exclude/key-by-value/payload-const-ref/default-map", dq, dt);
-	addCell<Cell<K, K, Tracked &, Pol<ArgumentPassingAutoDetect, true, Hashed>, false> >(kn + "/key-by-value/payload-mutable-ref/auto/user-map", dq, dt);
-	addCell<Cell<K, const K &, const Tracked &, Pol<ArgumentPassingAutoDetect, false, Hashed>, false> >(kn + "/key-const-ref/payload-const-ref/auto/default-map", dq, dt);
-	addCell<Cell<K, const K &, Tracked &, Pol<ArgumentPassingIncludeEvent, true, Hashed>, false> >(kn + "/key-const-ref/payload-mutable-ref/include/user-map", dq, dt);
-	addCell<Cell<K, K, const Tracked &, Pol<ArgumentPassingExcludeEvent, false, Hashed>, false> >(kn + "/key-by-value/payload-const-ref/exclude/default-map", dq, dt);
-	addCell<Cell<K, K, Tracked, Pol<ArgumentPassingIncludeEvent, true, Hashed>, false> >(kn + "/key-by-value/payload-by-value/include/user-map", dq, dt);
-	addCell<Cell<K, const K &, Tracked, Pol<ArgumentPassingAutoDetect, true, Hashed>, false> >(kn + "/key-const-ref/payload-by-value/auto/user-map", dq, dt);
-	addCell<Cell<K, K, Tracked &, Pol<ArgumentPassingExcludeEvent, false, Hashed>, false> >(kn + "/key-by-value/payload-mutable-ref/exclude/default-map", dq, dt);
-	addCell<Cell<K, K, const Tracked &, PolGetEvent<K, true, Hashed>, true> >(kn + "/getEvent-policy/payload-const-ref/user-map", dq, dt);
-	addCell<Cell<K, K, Tracked &, PolGetEvent<K, false, Hashed>, true> >(kn + "/getEvent-policy/payload-mutable-ref/default-map", dq, dt);
+	PLAINCELL(addCell<Cell<K, const K &, Tracked, PolGetEventRot<K, ArgumentPassingAutoDetect, true, Hashed>, false> >(kn + "/getEvent-mapping/auto/key-const-ref/payload-by-value/user-map", dq, dt);)
+	PLAINCELL(addCell<Cell<K, K, Tracked &, PolGetEventRot<K, ArgumentPassingIncludeEvent, false, Hashed>, false> >(kn + "/getEvent-mapping/include/key-by-value/payload-mutable-ref/default-map", dq, dt);)
+	REFCELL(addCell<Cell<K, K, const Tracked &, PolGetEventRotRef<K, ArgumentPassingExcludeEvent, false, Hashed>, false> >(kn + "/getEvent-mapping-returning-reference/exclude/key-by-value/payload-const-ref/default-map", dq, dt);)
+	PLAINCELL(addCell<Cell<K, K, Tracked &, Pol<ArgumentPassingAutoDetect, true, Hashed>, false> >(kn + "/key-by-value/payload-mutable-ref/auto/user-map", dq, dt);)
+	PLAINCELL(addCell<Cell<K, const K &, const Tracked &, Pol<ArgumentPassingAutoDetect, false, Hashed>, false> >(kn + "/key-const-ref/payload-const-ref/auto/default-map", dq, dt);)
+	PLAINCELL(addCell<Cell<K, const K &, Tracked &, Pol<ArgumentPassingIncludeEvent, true, Hashed>, false> >(kn + "/key-const-ref/payload-mutable-ref/include/user-map", dq, dt);)
+	PLAINCELL(addCell<Cell<K, K, const Tracked &, Pol<ArgumentPassingExcludeEvent, false, Hashed>, false> >(kn + "/key-by-value/payload-const-ref/exclude/default-map", dq, dt);)
+	PLAINCELL(addCell<Cell<K, K, Tracked, Pol<ArgumentPassingIncludeEvent, true, Hashed>, false> >(kn + "/key-by-value/payload-by-value/include/user-map", dq, dt);)
+	PLAINCELL(addCell<Cell<K, const K &, Tracked, Pol<ArgumentPassingAutoDetect, true, Hashed>, false> >(kn + "/key-const-ref/payload-by-value/auto/user-map", dq, dt);)
+	PLAINCELL(addCell<Cell<K, K, Tracked &, Pol<ArgumentPassingExcludeEvent, false, Hashed>, false> >(kn + "/key-by-value/payload-mutable-ref/exclude/default-map", dq, dt);)
+	PLAINCELL(addCell<Cell<K, K, const Tracked &, PolGetEvent<K, true, Hashed>, true> >(kn + "/getEvent-policy/payload-const-ref/user-map", dq, dt);)
+	PLAINCELL(addCell<Cell<K, K, Tracked &, PolGetEvent<K, false, Hashed>, true> >(kn + "/getEvent-policy/payload-mutable-ref/default-map", dq, dt);)
 }
 
 #ifndef VERIF_SUB
